@@ -284,8 +284,9 @@ def measure_group(magpy, scene, items, kap, orders=(16, 32), qerr_redo=1e-9):
                 ev["amp"] = {"big": bool(big), "q": [0, 0] if big else q12(1.0, gross)}
             else:
                 ev["amp"] = {"big": False, "q": [0, 0]}
-            first.setdefault(tid, ev["qerr"])
-            ev["qerr1"] = first[tid]  # error estimate before any refinement
+            first.setdefault(tid, qerr)
+            ev["qerr1"] = int(min(round(first[tid] * 1e12), QCAP))  # error estimate before any refinement
+            ev["qppm"] = [int(round(first[tid] * 1e6)), int(round(qerr * 1e6))]
             done[tid] = ev
             if ev["meas"]["fin"] and qerr > qerr_redo and rnd + 1 < len(SUBS[inst["law"]]):
                 nxt.append((tid, inst, der))
@@ -293,7 +294,7 @@ def measure_group(magpy, scene, items, kap, orders=(16, 32), qerr_redo=1e-9):
     return [done[t] for t, _, _ in items]
 
 
-TV_KEYS = ("tid", "prop", "kappa", "inst", "der", "meas", "meas8", "qerr", "qerr1", "sub", "amp")
+TV_KEYS = ("tid", "prop", "kappa", "inst", "der", "meas", "meas8", "qerr", "qppm", "sub", "amp")
 
 
 def tv_event(e):
@@ -316,7 +317,7 @@ def run_job(job):
             evs = measure_group(magpy, scene, items, kap)
         except Exception as ex:  # an exception of the library on a well-posed instance is itself an observation
             evs = [{"tid": tid, "kappa": "id" if kap.identity else "rnd", "inst": inst, "der": der, "meas": {"q": [0, 0], "fin": False}, "meas8": 0,
-                    "qerr": 0, "qerr1": 0, "sub": 0, "nodes": 0, "amp": {"big": False, "q": [0, 0]}, "raw": {"exception": repr(ex), "lam": kap.lam}} for tid, inst, der in items]
+                    "qerr": 0, "qerr1": 0, "qppm": [0, 0], "sub": 0, "nodes": 0, "amp": {"big": False, "q": [0, 0]}, "raw": {"exception": repr(ex), "lam": kap.lam}} for tid, inst, der in items]
         for e in evs:
             e["prop"] = prop
             e["kappa_desc"] = kap.describe()
